@@ -694,7 +694,8 @@ def exact_step_is_global_minimizer(A, b, Delta, result):
     # 1e-7 |m*|  +  rounding of the eigen-decomposition  +  the routine's own hard-case tolerance eps = 1e-12 mean|sigma|
     # (a multiplier within eps of the pole is treated as the hard case: sub-optimality <= eps Delta^2 / 2)
     allowed = (LD(TOL["exact_rel"]) * abs(mstar) + LD(64 * EPS) * (LD(a["Anorm"]) * D * D + LD(a["bnorm"]) * D)
-               + LD(1e-12) * LD(float(onp.mean(onp.abs(a["ref"]["sig"])))) * D * D)
+               + LD(1e-12) * LD(float(onp.mean(onp.abs(a["ref"]["sig"])))) * D * D
+               + LD(8) * LD(onp.finfo(float).tiny) * D * D)          # the oracle's own pole offset (denormal floor), matters for A = 0, b = 0
     return _bound("exact.global_min", float(a["m"] - mstar), float(allowed), _detail_ex(a, {"model": float(a["m"])}))
 
 
